@@ -89,8 +89,12 @@ def gen_inventory(loader, check, replay_on=True):
         name = r.alias or r.origin.name
         if isinstance(name, Token):
             name = str(name)
-        d = rules.setdefault(str(name), {"expand1": bool(r.options.expand1), "alts": []})
-        d["alts"].append(len([s for s in r.expansion if not (s.is_term and getattr(s, "filter_out", False))]))
+        d = rules.setdefault(str(name), {"expand1": bool(r.options.expand1), "alts": [], "single_terminal": []})
+        kept = [s for s in r.expansion if not (s.is_term and getattr(s, "filter_out", False))]
+        d["alts"].append(len(kept))
+        placeholders = sum(1 for x in (getattr(r.options, "empty_indices", None) or ()) if x)    # `[x]` leaves a None child: not inlined
+        if len(kept) == 1 and kept[0].is_term and not placeholders:
+            d["single_terminal"].append(str(kept[0].name))
     inv = {}
     for name, d in sorted(rules.items()):
         if name.startswith("_") or name.startswith("__"):
@@ -110,6 +114,14 @@ def gen_inventory(loader, check, replay_on=True):
             # a rule may gain a handler or become transparent, but a handled rule must not lose its handler silently
             ok = not (known[name] == "callback" and cls != "callback")
             check.ob("inventory#translating-production-keeps-its-callback", name, [], ok, detail=f"{name}: was {known[name]}, now {cls}")
+            if cls == "callback":
+                # a `?rule` is inlined by lark when an alternative has ONE child: the callback is bypassed.  That is fine when the child
+                # is a translated value (the chain of expression rules), but an alternative consisting of a single terminal would let a
+                # bare token (break, continue, return ...) flow into the statement list without ever reaching the callback
+                bypass = d["single_terminal"] if d["expand1"] else []
+                check.ob("inventory#callback-is-not-bypassed-for-a-bare-terminal", name, [], not bypass,
+                         detail=f"rule ?{name}: the alternatives {bypass} have a single terminal child and skip the callback {name}()",
+                         replay=("c15.source", lambda mdl: {"src": "{ RdV = 1; if (RsV) { break; } RtV = 2; }"}) if replay_on and bypass else None)
     check.extra["production_inventory"] = inv
     check.extra["productions_producing_trees"] = sorted(n for n, c in inv.items() if c in ("tree", "transparent-or-tree"))
     check.ob("inventory#scanned", f"{len(inv)} rules", [], len(inv) > 50)
@@ -295,15 +307,26 @@ def gen_injection(loader, check, replay_on=True):
 
 
 # ------------------------------------------------------------------------------------------ replay
+UNHANDLED_FORMS = ["{ RdV = 1; l: RsV = 2; }", "{ RdV = 1, RsV = 2; }", "{ l: { RdV = 1; RsV = 2; } }", "{ if (RsV) { l: { RdV = 1; RtV = 2; } } }",
+                   "{ RdV = 1; m: l: RsV = 2; }", "{ l: RdV = 1, RsV = 2; }"]
+
+
 @replay.register("c15.source")
 def replay_source(a):
     c = irkit.real_compiler()
-    try:
-        txt = c.compile_c_stmt(a["src"])
-    except Exception as e:
-        return False, f"{a['src']} is rejected: {type(e).__name__}"
-    seq = [l for l in txt.splitlines() if "instruction_sequence =" in l]
-    return True, f"{a['src']} is accepted and compiles to: {seq}"
+    srcs = [a["src"]]
+    if a.get("family") == "unhandled-production" or any(a["src"] == f for f in UNHANDLED_FORMS):
+        srcs += [f for f in UNHANDLED_FORMS if f != a["src"]]      # the clause speaks about every production without handler
+    out = []
+    for src in srcs:
+        try:
+            txt = c.compile_c_stmt(src)
+        except Exception as e:
+            out.append(f"{src} is rejected ({type(e).__name__})")
+            continue
+        seq = [l for l in txt.splitlines() if "instruction_sequence =" in l]
+        return True, f"{src} is accepted and compiles to: {seq}"
+    return False, "; ".join(out)
 
 
 def gen_stmt_lists(loader, check, replay_on=True):
